@@ -253,6 +253,8 @@ pub struct ExprError(#[from] pub(crate) ExprErrorKind);
 pub(crate) enum ExprErrorKind {
     #[error("Unexpected value {1} for signal {0}")]
     UnexpectedValueForSignal(String, OutputValue),
+    #[error("Division by zero")]
+    DivisionByZero,
 }
 
 /// Could not construct static iterator
